@@ -5,7 +5,7 @@ ID = "C06"
 TITLE = "equivalence database: classes = strongly connected components, verified flags, explanation paths"
 COQ_PROPS = "Props/C06.v"
 COQ_RUN = ("Equiv.Run", "run_c06")
-GEN_TARGETS = []
+GEN_TARGETS = ["equiv_heaviest"]   # Equiv/GenBridge.v
 N = {"quick": 4000, "thorough": 60000}
 RULE = (
     "histories of 1-60 operations (add_two_way_edge, add_one_way_edge, set_verified, connect_cycles, "
@@ -452,4 +452,28 @@ def extra_checks(ctx):
         if list(s) != sorted(xs):
             ok, detail = False, "set built from %r iterates as %r" % (xs, list(s))
             break
-    return [("CPython set iteration order for labels 0..7", ok, detail)]
+    from harness import gen_selftest
+
+    return [("CPython set iteration order for labels 0..7", ok, detail),
+            gen_selftest.rejects(_BAD_SNIPPETS)] + gen_selftest.checks(GEN_TARGETS, ctx.seed, ID)
+
+
+_EQ_HEAD = "class EquivalenceDB:\n    def _set_equivalent(self, label, other_label):\n"
+# source texts outside the translator's subset / with a changed shape: each must be REJECTED (fail closed)
+_BAD_SNIPPETS = [
+    ("equiv_heaviest", _EQ_HEAD + "        roots = [self[label], self[other_label]]\n"
+     "        heaviest = max(roots, key=self.weights.get)\n", "keyword argument"),
+    ("equiv_heaviest", _EQ_HEAD + "        roots = [self[label], self[other_label]]\n        roots = sorted(roots)\n"
+     "        heaviest = max(((self.weights[r], r) for r in roots))[1]\n", "local roots assigned twice"),
+    ("equiv_heaviest", _EQ_HEAD + "        roots = [self[label], self[other_label]]\n"
+     "        heaviest = max(((self.weights[r], r) for r in roots))[1]\n        if self.flip:\n            heaviest = roots[0]\n",
+     "heaviest assigned a second time"),
+    ("equiv_heaviest", _EQ_HEAD + "        roots = [self[label], self.find(other_label)]\n"
+     "        heaviest = max(((self.weights[r], r) for r in roots))[1]\n", "reads something the target does not bind"),
+]
+
+
+# translator tie (DESIGN.md 10.9): what the regenerated definitions add to the level
+LEVEL_NOTE += (
+    " The union-by-weight choice max(((self.weights[r], r) for r in roots))[1] of _set_equivalent is RE-TRANSLATED from equiv_db.py on every run and the model's `heaviest` is proved equal to it (C06_heaviest_is_source; Equiv/GenBridge.v); the regenerated definition is evaluated against the source expression on random arguments every run (harness/gen_selftest.py)."
+)
